@@ -551,10 +551,19 @@ func joinedWant(f *family, owner *model, r *rel, j *joinSpec, cand row) string {
 }
 
 type load struct {
-	Mode     string        `json:"mode"` // query | assoc-find
-	Root     string        `json:"root"`
-	Shape    string        `json:"shape"` // struct | slice | ptrslice
-	Dup      bool          `json:"dup,omitempty"`
+	Mode   string `json:"mode"` // query | assoc-find
+	Root   string `json:"root"`
+	Shape  string `json:"shape"` // struct | slice | ptrslice
+	Dup    bool   `json:"dup,omitempty"`
+	dupRow row    // the mirror row DupPick names (set by the test before the load runs)
+	// Focus "m2m-owner-lists": a case built around the owner lists of a many-to-many
+	// preload - the parent the database lists first is repeated 3, 5, 6 or 7 times,
+	// the others once, the join rows are dense
+	Focus    string        `json:"focus,omitempty"`
+	DupOne   bool          `json:"dup_one,omitempty"` // only the parent row DupPick appears DupN times, the others once
+	DupPick  int           `json:"dup_pick,omitempty"`
+	DupByTag int           `json:"dup_by_tag,omitempty"` // s > 0: a parent with tag t (0..3) appears 1+t*s times, any other once
+	DupN     int           `json:"dup_n,omitempty"`      // how often every parent appears (0: twice); assoc-find: extra copies of the first parent
 	Reload   bool          `json:"reload,omitempty"`
 	Unscoped bool          `json:"unscoped,omitempty"`
 	MinTag   int           `json:"min_tag,omitempty"` // slices: parents with tag >= MinTag
@@ -1136,7 +1145,7 @@ func genGraph(rt *rapid.T, f *family, l load) *graph {
 			}
 			for _, fn := range m.alt {
 				// a referenced non-key column: duplicates are likely, "" (gorm: no value) possible
-				if v := rapid.SampledFrom([]string{"", "a", "a", "b", "a_b", "nil", "0", "日本"}).Draw(rt, fn); v != "" {
+				if v := rapid.SampledFrom([]string{"", "a", "a", "b", "a_b", "nil", "0", "日本", "1", "2"}).Draw(rt, fn); v != "" {
 					setVal(field(r, fn), val{Str: true, S: v})
 				}
 			}
@@ -1247,7 +1256,11 @@ func genGraph(rt *rapid.T, f *family, l load) *graph {
 			if p := m.poly; p != nil {
 				label := fmt.Sprintf("%s[%d].owner", m.name, i)
 				owner := f.m(rapid.SampledFrom(p.owners).Draw(rt, label+".type"))
-				t := drawFK(r, fk{[]string{p.idField}, owner.name, owner.pk}, label, true)
+				okey := owner.pk
+				if k, ok := p.keys[owner.name]; ok {
+					okey = k // `polymorphic` + `foreignKey:`: the id column holds this owner field
+				}
+				t := drawFK(r, fk{[]string{p.idField}, owner.name, okey}, label, true)
 				setVal(field(r, p.idField), t[0])
 				typ := owner.table
 				if v, ok := p.values[owner.name]; ok {
@@ -1268,6 +1281,36 @@ func genGraph(rt *rapid.T, f *family, l load) *graph {
 		}
 		n := rapid.IntRange(0, m.maxRows+extraRows()).Draw(rt, m.name+".n")
 		seen := map[string]bool{}
+		if rapid.Bool().Draw(rt, m.name+".dense") || l.Focus != "" {
+			// densely linked: most pairs of the first owners and targets, so that
+			// several owners share several far rows
+			n = 0
+			owners, targets := g.rows[m.fks[0].target], g.rows[m.fks[1].target]
+			for oi := 0; oi < len(owners) && oi < 4; oi++ {
+				for ti := 0; ti < len(targets) && ti < 3; ti++ {
+					if !rapid.Bool().Draw(rt, fmt.Sprintf("%s.link.%d.%d", m.name, oi, ti)) {
+						continue
+					}
+					r := reflect.New(m.typ)
+					to, tt := tupleOf(owners[oi], m.fks[0].tfields), tupleOf(targets[ti], m.fks[1].tfields)
+					if excluded(rg.collides(roleOf(m.name, m.fks[0].fields), to)) || excluded(rg.collides(roleOf(m.name, m.fks[1].fields), tt)) {
+						continue
+					}
+					for j, fn := range m.fks[0].fields {
+						setVal(field(r, fn), to[j])
+					}
+					for j, fn := range m.fks[1].fields {
+						setVal(field(r, fn), tt[j])
+					}
+					if pk := tupleOf(r, m.pk); !seen[pk.String()] {
+						seen[pk.String()] = true
+						rg.add(roleOf(m.name, m.fks[0].fields), to)
+						rg.add(roleOf(m.name, m.fks[1].fields), tt)
+						g.rows[m.name] = append(g.rows[m.name], r)
+					}
+				}
+			}
+		}
 		for i := 0; i < n; i++ {
 			r := reflect.New(m.typ)
 			bad := false
@@ -1745,7 +1788,90 @@ func gormFieldName(fieldName string) string {
 
 func curCol(name string) clause.Column { return clause.Column{Table: clause.CurrentTable, Name: name} }
 
-const dupJoin = "JOIN (SELECT 1 AS n UNION ALL SELECT 2 AS n) AS dup ON 1 = 1"
+// copies is how often every parent appears under the duplicating join.
+func (l load) copies() int {
+	if !l.Dup {
+		return 1
+	}
+	if l.DupN < 2 {
+		return 2
+	}
+	return l.DupN
+}
+
+// lessTuple orders key tuples the way SQLite's BINARY collation does (integers
+// numerically, text bytewise, member by member).
+func lessTuple(a, b tuple) bool {
+	for i := range a {
+		if a[i].Str != b[i].Str {
+			return !a[i].Str
+		}
+		if a[i].Str && a[i].S != b[i].S {
+			return a[i].S < b[i].S
+		}
+		if !a[i].Str && a[i].I != b[i].I {
+			return a[i].I < b[i].I
+		}
+	}
+	return false
+}
+
+// copiesOf is how often parent p appears in the result.
+func (l load) copiesOf(p row) int {
+	if l.Dup && l.DupOne {
+		if l.dupRow.IsValid() && p.Pointer() == l.dupRow.Pointer() {
+			return l.copies()
+		}
+		return 1
+	}
+	if l.Dup && l.DupByTag > 0 {
+		if t := tagOf(p); t >= 0 && t <= 3 {
+			return 1 + t*l.DupByTag
+		}
+		return 1
+	}
+	return l.copies()
+}
+
+// dupJoin repeats the parent rows: every row n times, or - byTag - a row with
+// tag t in 0..3 1+t*s times (parents duplicated unevenly).
+func dupJoin(l load, d *testdb.DB, root *model) (string, []interface{}) {
+	table := root.table
+	n := l.copies()
+	if l.DupByTag > 0 {
+		n = 1 + 3*l.DupByTag
+	}
+	sel := "SELECT 0 AS n"
+	for i := 1; i < n; i++ {
+		sel += fmt.Sprintf(" UNION ALL SELECT %d AS n", i)
+	}
+	if l.DupOne {
+		// only the picked parent is repeated
+		on := "dup.n = 0"
+		var args []interface{}
+		if l.dupRow.IsValid() {
+			var eqs []string
+			for i, v := range tupleOf(l.dupRow, root.pk) {
+				eqs = append(eqs, fmt.Sprintf("%s.%s = ?", table, colName(d.DB, root.pk[i])))
+				if v.Str {
+					if fieldType(root, root.pk[i]) == bytesT {
+						args = append(args, []byte(v.S))
+					} else {
+						args = append(args, v.S)
+					}
+				} else {
+					args = append(args, v.I)
+				}
+			}
+			on += " OR (" + strings.Join(eqs, " AND ") + ")"
+		}
+		return "JOIN (" + sel + ") AS dup ON " + on, args
+	}
+	if l.DupByTag > 0 {
+		return fmt.Sprintf("JOIN (%s) AS dup ON dup.n <= (CASE WHEN %s.tag BETWEEN 0 AND 3 THEN %s.tag * %d ELSE 0 END)", sel, table, table, l.DupByTag), nil
+	}
+	return "JOIN (" + sel + ") AS dup ON 1 = 1", nil
+}
 
 func padJoin(i int) string {
 	return fmt.Sprintf("JOIN (SELECT 1 AS n%d) AS pad%d ON 1 = 1", i, i)
@@ -1821,7 +1947,8 @@ func buildBase(d *testdb.DB, g *graph, l load, n int) *gorm.DB {
 		tx = tx.Joins(padJoin(i))
 	}
 	if l.Dup {
-		tx = tx.Joins(dupJoin)
+		q, args := dupJoin(l, d, root)
+		tx = tx.Joins(q, args...)
 	}
 	for _, j := range l.Joins[:n] {
 		tx = addJoin(tx, d, g, root, j, nil)
@@ -1993,8 +2120,7 @@ func referenceRows(g *graph, l load) []string {
 			}
 			combos = next
 		}
-		out = append(out, combos...)
-		if l.Dup {
+		for i := 0; i < l.copiesOf(p); i++ {
 			out = append(out, combos...)
 		}
 	}
@@ -2124,9 +2250,9 @@ func checkQueryWith(d *testdb.DB, g *graph, l0 load, run func(lr load, dest refl
 		for _, e := range elems {
 			distinct[tupleOf(e, root.pk).String()] = true
 		}
-		factor := 1
-		if l.Dup {
-			factor = 2
+		factor := l.copies()
+		if l.DupByTag > 0 || l.DupOne {
+			factor = 1
 		}
 		for name, st := range c.stats {
 			r := root.rel(name)
@@ -2190,7 +2316,7 @@ func checkAssocFind(d *testdb.DB, g *graph, l load) (string, bool) {
 		for _, p := range chosen {
 			parents.Elem().Set(reflect.Append(parents.Elem(), p.Elem()))
 		}
-		if l.Dup {
+		for i := 1; i < l.copies(); i++ {
 			parents.Elem().Set(reflect.Append(parents.Elem(), chosen[0].Elem()))
 		}
 	default:
@@ -2204,8 +2330,8 @@ func checkAssocFind(d *testdb.DB, g *graph, l load) (string, bool) {
 			}
 			parents.Elem().Set(reflect.Append(parents.Elem(), cp))
 		}
-		if l.Dup {
-			parents.Elem().Set(reflect.Append(parents.Elem(), first)) // the same pointer twice
+		for i := 1; i < l.copies(); i++ {
+			parents.Elem().Set(reflect.Append(parents.Elem(), first)) // the same pointer again
 		}
 	}
 	tx := d.Session(&gorm.Session{PrepareStmt: l.PrepareStmt})
@@ -2324,6 +2450,13 @@ func classesOf(g *graph, l load) []string {
 	set[shape] = true
 	if l.Dup {
 		set["shape:duplicate-parents"] = true
+		if l.DupByTag > 0 {
+			set["shape:duplicate-parents-unevenly"] = true
+		} else if l.DupOne {
+			set[fmt.Sprintf("shape:one-parent-x%d-others-once", l.copies())] = true
+		} else {
+			set[fmt.Sprintf("shape:duplicate-parents-x%d", l.copies())] = true
+		}
 	}
 	if l.Reload {
 		set["shape:reload-same-struct"] = true
@@ -2381,6 +2514,9 @@ func classesOf(g *graph, l load) []string {
 	}
 	if l.PrepareStmt {
 		set["config:prepare-stmt"] = true
+	}
+	if l.Focus != "" {
+		set["focus:"+l.Focus] = true
 	}
 	if l.Shared {
 		set["handle:shared-base-two-derived-queries"] = true
@@ -2595,6 +2731,8 @@ func classesOf(g *graph, l load) []string {
 // typeShapes labels the relations whose key columns have a special type shape.
 var typeShapes = map[string]string{
 	"AUser.Gifts":   "type:references-non-primary-column",
+	"AUser.Memos":   "type:polymorphic-with-foreignKey-on-non-primary-column",
+	"AUser.Stamp":   "type:polymorphic-with-foreignKey-on-non-primary-column",
 	"AGift.Giver":   "type:references-non-primary-column",
 	"AUser.Mentor":  "type:relation-in-embedded-struct",
 	"AUser.Profile": "type:sql.NullInt64-foreign-key",
@@ -2669,22 +2807,46 @@ func genLoad(rt *rapid.T, f *family, wide bool) load {
 	l.Root = rapid.SampledFrom([]string{f.name + "User", f.name + "User", f.name + "User", f.name + "User", f.name + "Company", f.name + "Pet"}).Draw(rt, "root")
 	root := f.m(l.Root)
 	l.Mode = rapid.SampledFrom([]string{"query", "query", "query", "assoc-find"}).Draw(rt, "mode")
+	if !wide && rapid.IntRange(0, 11).Draw(rt, "focus") == 0 {
+		l.Focus, l.Root, l.Mode = "m2m-owner-lists", f.name+"User", "query"
+		root = f.m(l.Root)
+	}
 	l.Shape = rapid.SampledFrom([]string{"slice", "slice", "slice", "ptrslice", "ptrslice", "ptrslice", "struct", "struct", "array", "ptrarray"}).Draw(rt, "shape")
 	if l.Shape == "array" {
 		l.ArrayExtra = rapid.IntRange(0, 2).Draw(rt, "array-extra")
 	}
 	if l.Shape != "struct" {
-		l.Dup = rapid.IntRange(0, 3).Draw(rt, "dup") == 0
+		l.Dup = rapid.IntRange(0, 2).Draw(rt, "dup") == 0
+		if l.Dup {
+			// 2..7 copies: identity-map entries of 3, 5, 6, 7 records have spare capacity
+			l.DupN = rapid.IntRange(2, 7).Draw(rt, "dup.n")
+			if l.Mode == "query" {
+				switch rapid.SampledFrom([]string{"all", "by-tag", "one", "one", "one"}).Draw(rt, "dup.mode") {
+				case "by-tag":
+					// uneven duplication: 1,2,3,4 or 1,3,5,7 copies depending on the parent's tag
+					l.DupByTag, l.DupN = rapid.IntRange(1, 2).Draw(rt, "dup.by-tag.step"), 0
+				case "one":
+					l.DupOne = true // one parent (drawn once the rows exist) is repeated, the others are not
+				}
+			}
+		}
 		if rapid.IntRange(0, 3).Draw(rt, "filter") == 0 {
 			l.MinTag = rapid.IntRange(1, 2).Draw(rt, "min-tag")
 		}
+	}
+	if l.Focus != "" {
+		if l.Shape != "slice" && l.Shape != "ptrslice" {
+			l.Shape, l.ArrayExtra = "slice", 0
+		}
+		l.Dup, l.DupOne, l.DupByTag, l.MinTag = true, true, 0, 0
+		l.DupN = rapid.SampledFrom([]int{3, 3, 5, 6, 7}).Draw(rt, "focus.copies")
 	}
 	l.Unscoped = rapid.IntRange(0, 7).Draw(rt, "unscoped") == 0
 	l.QueryFields = rapid.IntRange(0, 7).Draw(rt, "query-fields") == 0
 	l.PrepareStmt = rapid.IntRange(0, 7).Draw(rt, "prepare-stmt") == 0
 	if wide {
 		// more than a thousand parents of the user model in one slice
-		l.Root, l.Dup, l.MinTag = f.name+"User", false, 0
+		l.Root, l.Dup, l.DupN, l.DupByTag, l.DupOne, l.MinTag = f.name+"User", false, 0, 0, false, 0
 		root = f.m(l.Root)
 		if l.Shape == "struct" {
 			l.Shape = "slice"
@@ -2807,6 +2969,22 @@ func genLoad(rt *rapid.T, f *family, wide bool) load {
 			}
 		}
 		l.Preloads = append(l.Preloads, p)
+	}
+	// one parent repeated and the others not: mostly together with a many-to-many
+	// relation (several owners share far rows; the hop through the join rows
+	// builds owner lists of different lengths)
+	if l.Dup && l.DupOne && (l.Focus != "" || rapid.Bool().Draw(rt, "dup.one.m2m")) {
+		var m2m []string
+		for _, r := range root.rels {
+			if r.kind == many2many && !used[r.name] {
+				m2m = append(m2m, r.name)
+			}
+		}
+		if len(m2m) > 0 {
+			name := rapid.SampledFrom(m2m).Draw(rt, "dup.one.m2m.rel")
+			used[name] = true
+			l.Preloads = append(l.Preloads, preloadSpec{Path: name})
+		}
 	}
 	if len(l.Joins) == 0 && len(l.Preloads) == 0 {
 		l.Preloads = []preloadSpec{{Path: names[0]}}
@@ -3033,6 +3211,18 @@ func TestC11(t *testing.T) {
 			l.Shape, l.Reload, l.Pick = "slice", false, 0
 		} else if l.Shape == "struct" {
 			l.Pick = rapid.IntRange(0, n-1).Draw(rt, "pick")
+		} else if l.Dup && l.DupOne {
+			l.DupPick = rapid.IntRange(0, n-1).Draw(rt, "dup-pick")
+			if rapid.Bool().Draw(rt, "dup-pick.smallest-key") || l.Focus != "" {
+				// the parent the database lists first (its join rows come first too)
+				root := f.m(l.Root)
+				for i, r := range g.rows[l.Root] {
+					if lessTuple(tupleOf(r, root.pk), tupleOf(g.rows[l.Root][l.DupPick], root.pk)) {
+						l.DupPick = i
+					}
+				}
+			}
+			l.dupRow = g.rows[l.Root][l.DupPick]
 		}
 		if class := knownClass(g, l); class != "" && harness.OpenClass("C11", class) {
 			evid.Excluded(class)
@@ -3167,14 +3357,22 @@ func genWide(rt *rapid.T, f *family, n int, live map[string]bool) *graph {
 				}
 			}
 			if pr := m.poly; pr != nil {
-				if rapid.IntRange(0, 3).Draw(rt, "poly.company") == 0 {
+				hasCompany := false
+				for _, o := range pr.owners {
+					hasCompany = hasCompany || o == cm.name
+				}
+				if hasCompany && rapid.IntRange(0, 3).Draw(rt, "poly.company") == 0 {
 					idx := rapid.IntRange(0, 2).Draw(rt, "poly.company.idx")
 					setFK(r, []string{pr.idField}, g.rows[cm.name][idx], cm.pk)
 					field(r, pr.typeField).SetString(cm.table)
 					fmt.Fprintf(&sb, "c%d", idx)
 				} else {
 					idx := pickUser(fmt.Sprintf("%s[%d].owner", m.name, i))
-					setFK(r, []string{pr.idField}, g.rows[um.name][idx], um.pk)
+					ukey := um.pk
+					if k, ok := pr.keys[um.name]; ok {
+						ukey = k
+					}
+					setFK(r, []string{pr.idField}, g.rows[um.name][idx], ukey)
 					field(r, pr.typeField).SetString(um.table)
 					fmt.Fprintf(&sb, "%d", idx)
 				}
